@@ -607,6 +607,12 @@ func (x *Exec) loopEntry(fr *Frame, st *State, h *ssa.BasicBlock, ord int) bool 
 			st.ghost[fmt.Sprintf("measure:%d:%d", ord, i)] = m.T
 		}
 		st.ghost[fmt.Sprintf("callmark:%d", ord)] = IntLit(int64(len(st.calls)))
+		if len(x.ctr.LoopStep[ord]) > 0 {
+			if st.loopHeads == nil {
+				st.loopHeads = map[int]*State{}
+			}
+			st.loopHeads[ord] = st.clone()
+		}
 	}
 	return true
 }
@@ -732,6 +738,13 @@ func (x *Exec) loopBackEdge(fr *Frame, st *State, h *ssa.BasicBlock, ord int) {
 		x.oblige(st, "INV", fmt.Sprintf("loop%d/preserved(%s)", ord, c.Src), x.evalBool(env, c.Expr), "loop invariant preserved")
 	}
 	if fr.isEntry && x.ctr != nil {
+		if head := st.loopHeads[ord]; head != nil {
+			for _, c := range x.ctr.LoopStep[ord] {
+				senv := x.loopEnv(fr, st, h)
+				senv.old = x.loopEnv(fr, head, h)
+				x.oblige(st, "INV", fmt.Sprintf("loop%d/step(%s)", ord, c.Src), x.evalBool(senv, c.Expr), "two-state clause over one iteration of the loop")
+			}
+		}
 		for i, c := range x.ctr.Decreases[ord] {
 			m0, ok := st.ghost[fmt.Sprintf("measure:%d:%d", ord, i)]
 			if !ok {
